@@ -21,21 +21,7 @@ VARIABLES lays, pat, nm, fr, out, act
 vars == <<lays, pat, nm, fr, out, act>>
 View == <<lays, pat, nm, fr, out>>
 
-Perms(S) == {p \in [1..Cardinality(S) -> S] : \A a, b \in 1..Cardinality(S) : a # b => p[a] # p[b]}
-
-(* all layouts of one setup with roving sensor ids rov (a set): every arrangement of the   *)
-(* reference and roving sensors in the local channel list                                  *)
-SetupLayouts(rov) ==
-    LET sensors == (1..NRef) \cup rov
-    IN {[chan |-> p, ref |-> [j \in 1..NRef |-> CHOOSE c \in DOMAIN p : p[c] = j]] : p \in Perms(sensors)}
-
-RovIds(cnt, i) ==   \* global ids of the roving sensors of setup i
-    LET before == LET F[m \in 0..(i - 1)] == IF m = 0 THEN 0 ELSE F[m - 1] + cnt[m] IN F[i - 1]
-    IN {NRef + before + r : r \in 1..cnt[i]}
-
-AllLays(cnt) ==
-    {l \in [1..Len(cnt) -> UNION {SetupLayouts(RovIds(cnt, i)) : i \in 1..Len(cnt)}] :
-        \A i \in 1..Len(cnt) : l[i] \in SetupLayouts(RovIds(cnt, i))}
+AllLays(cnt) == AllLayouts(NRef, cnt)
 
 Init ==
     /\ \E cnt \in RovCounts : lays \in AllLays(cnt)
